@@ -357,11 +357,33 @@ def _rep_dead_end(text, limit):
     return "\n".join(out), hits
 
 
+_REL_OPS = (("==", ".eq."), ("/=", ".ne."), ("<=", ".le."), (">=", ".ge."))
+
+
+def _rep_directive_relop(text, limit):
+    """Over-long directive lines holding a relational operator spelled with
+    '=' (== /= <= >=): '=' is a break key for directives and the directive
+    continuation markers (' &' / '!$omp& ') put blanks between the two
+    characters.  Repair: spell the operator .eq. / .ne. / .le. / .ge."""
+    lines, info = _lines_info(text)
+    hits = 0
+    for num, (line, inf) in enumerate(zip(lines, info)):
+        if len(line) > limit and inf["kind"] in ("omp", "acc"):
+            new = line
+            for sym, dotted in _REL_OPS:
+                new = new.replace(sym, dotted)
+            if new != line:
+                lines[num] = new
+                hits += 1
+    return "\n".join(lines), hits
+
+
 REPAIRS = {
     "trailing_comment_cut": _rep_trailing_comment,
     "indent_exact_fit": _rep_exact_fit,
     "directive_cont_sentinel_cut": _rep_directive_cont,
     "key_priority_dead_end": _rep_dead_end,
+    "directive_relop_split": _rep_directive_relop,
 }
 # causes whose only symptom is an InternalError
 EXCEPTION_ONLY = {"indent_exact_fit", "key_priority_dead_end"}
